@@ -211,7 +211,7 @@ func (e *Engine) isSpec(fn *ssa.Function) bool {
 		if sp == fn.Pkg {
 			if cf := e.cfiles[k]; cf != nil {
 				for _, s := range cf.Specs {
-					if s.Name == fn.Name() {
+					if s.Name == fn.Name() || strings.HasPrefix(s.Name, fn.Name()+"[") {
 						return true
 					}
 				}
@@ -229,7 +229,7 @@ func (e *Engine) isOpaqueSpec(fn *ssa.Function) bool {
 		if sp == fn.Pkg {
 			if cf := e.cfiles[k]; cf != nil {
 				for _, s := range cf.Specs {
-					if s.Opaque && s.Name == fn.Name() {
+					if s.Opaque && (s.Name == fn.Name() || strings.HasPrefix(s.Name, fn.Name()+"[")) {
 						return true
 					}
 				}
@@ -408,39 +408,6 @@ func (vc *VC) lockRelease(li *LockInv, lv *LVal, mode int) {
 	self := SV{L: []string{lv.Ref}}
 	g := vc.evalClause(li.GoName, li.Pkg, []SV{self}, vc.st, vc.entry)
 	vc.oblige("lockinv:"+li.Type, li.Tags, g)
-}
-
-func (e *Engine) chanSend(vc *VC, fr *Frame, ch ssa.Value, v SV, blocking bool, pos token.Pos) {
-	vc.noteAssumption("channel send: modelled as a no-op on verified state")
-}
-
-func (e *Engine) chanRecv(vc *VC, fr *Frame, ch ssa.Value, commaOk bool, pos token.Pos) SV {
-	et := ch.Type().Underlying().(*types.Chan).Elem()
-	out := vc.freshValue(et, "recv")
-	if commaOk {
-		out.L = append(out.L, vc.fresh("Bool", "recvok"))
-	}
-	return out
-}
-
-func (e *Engine) selectStmt(vc *VC, fr *Frame, x *ssa.Select) SV {
-	// result tuple: (index int, recvOk bool, recv_0 T0, ...)
-	idx := vc.fresh(bvSort(64), "selidx")
-	n := len(x.States)
-	lo := bvLitI(0, 64)
-	if !x.Blocking {
-		lo = "(bvneg (_ bv1 64))"
-	}
-	vc.assume(and("(bvsle "+lo+" "+idx+")", "(bvslt "+idx+" "+bvLitI(int64(n), 64)+")"))
-	out := SV{L: []string{idx, vc.fresh("Bool", "selok")}}
-	for _, s := range x.States {
-		if s.Dir == types.RecvOnly {
-			et := s.Chan.Type().Underlying().(*types.Chan).Elem()
-			v := vc.freshValue(et, "selrecv")
-			out.L = append(out.L, v.L...)
-		}
-	}
-	return out
 }
 
 // ---- verification of one function ----------------------------------------------------------
